@@ -62,6 +62,8 @@ var handCorpus = []string{
 	`<% let ys = sx + gid %><%= ys %>|<%= sx %>|<%= for (v) in [1, 2, 3] { %><%= sx + v %>;<% } %>|<% let a = sx + 1 %><% let b = sx + 2 %><%= a %><%= b %>`,
 	// a promoted field of a value whose struct type differs from execution to execution
 	`<%= if (px) { %><%= px.Name %>|<%= px.Title %>|<%= for (i) in [1, 2] { %><%= px.Name %><% } %><% } else { %>no px<% } %>`,
+	// a template function is a value: nothing reachable from it lets the template rewrite its own parsed program
+	`<% let f = fn(x) { return "A"; return "B" } %><%= f(1) %><% f.Block.Statements[0] = f.Block.Statements[1] %>|<% f.Parameters[0] = f.Parameters[0] %>`,
 	`<%= 1 / 0 %>`,
 	`<%= 1 +`,
 	`<% if (true) { %>open`,
